@@ -54,7 +54,7 @@ META = {
             "unreadable files need a non-root child (uid 65534); delays are observed via the hook, not wall-clock"),
     "C16": ("rapid state machine vs a reference log + totality over generated history file bytes (rapid + native fuzz)",
             "Generated add/save/load (fresh and same object)/clear histories are compared with a reference log (bound, order, repeat-update, views); arbitrary file content followed by record+save must not panic and must leave the new query newest.",
-            "queries are valid UTF-8 as every real caller passes ValidateQuery output"),
+            "queries may hold invalid UTF-8 (the validator passes it through); the reference log keeps a query in the form it reads back from the JSON file"),
     "C17": ("differential: built binary output vs in-process engine; JSON well-formedness; escape scan; history file; sub-command totality",
             "Generated CLI invocations in an isolated HOME: printed results must equal the engine's answer in order within the limit, JSON must decode to one object per result, no ESC bytes under no-color, exactly one matching newest history entry; every sub-command exits 0/1 without panic.",
             "in-process recomputation uses the same packages as the binary, so it checks the CLI wiring, not the engine (that is C01-C07)"),
